@@ -1002,3 +1002,7 @@ def run(res, facts, tier):
     c04_split.run_cdata_rule(res, facts, tier)
     from . import c04_f2x
     c04_f2x.run_rule(res, facts, tier)
+    from . import c08_transcode
+    c08_transcode.run_c04_rule(res, facts, tier)
+    from . import c04_stream
+    c04_stream.run_rule(res, facts, tier)
